@@ -110,6 +110,10 @@ type Case struct {
 	Fam     string `json:"fam"`
 	Cfg     Cfg    `json:"cfg"`
 	Ops     []Op   `json:"ops"`
+	Progs   [][]Op `json:"progs"`  // conc family: one op list per goroutine
+	N       int    `json:"n"`      // conc family: logged iterations
+	Stress  int    `json:"stress"` // conc family: unlogged iterations
+	Procs   int    `json:"procs"`  // conc family: GOMAXPROCS of the child
 	Keys    []string `json:"keys"` // params family: keys observed after every op
 	Reqs    []Op   `json:"reqs"` // requests executed after the ops (TLC prints them as a set)
 	Battery string `json:"battery"` // last | every | none
@@ -144,6 +148,7 @@ type obs struct {
 	ctxID               string
 	recovered           []string
 	w                   *recW
+	hook                func(ev, ctx string)
 }
 
 func newObs() *obs {
@@ -290,11 +295,20 @@ func describePanic(v any) (kind, val string) {
 }
 
 // call is the CallFunc of every router / group built by the harness.
+type obsKey struct{}
+
 func (e *env) call(w http.ResponseWriter, r *http.Request, rt types.Route, h *H) {
 	o := e.cur
+	if v := r.Context().Value(obsKey{}); v != nil { // concurrent requests carry their own observation
+		o = v.(*obs)
+	}
 	o.urlPath = r.URL.Path
 	o.rname = rt.RouterName()
 	o.ctxID = fmt.Sprintf("%p", rt)
+	if o.hook != nil {
+		o.hook("enter", o.ctxID)
+		defer o.hook("exit", o.ctxID)
+	}
 	for h.tag != "" { // a nil h faults here exactly as a user CallFunc would
 		o.order = append(o.order, h.tag)
 		e.maybePanic("mw:" + h.tag)
